@@ -34,7 +34,9 @@ def main():
     for item in json.load(open(sys.argv[1])):
         g = item["g"]
         recs = []
-        for qi, (t, c, topo) in enumerate(item["qs"]):
+        for qi, q in enumerate(item["qs"]):
+            t, c, topo = q[0], q[1], q[2]
+            rest_ancestral = len(q) > 3 and q[3]
             graph = build_graph(g, qi % 3)
             tv, cv, order = frozenset(var(i) for i in t), frozenset(var(i) for i in c), [var(i) for i in topo]
             nodes = [var(i) for i in g["n"]]
@@ -49,6 +51,16 @@ def main():
             qc, out = outcome(lambda: identify_district_variables(input_variables=cv, input_district=tv,
                                                                   district_probability=qt, graph=graph, topo=order))
             recs.append({"id": rid + ":id", "k": "q", "s": c, "out": out})
+            # (2b) another expression for Q[T]: when V \ T is ancestral, the conditional probability P(T | V \ T)
+            #      (TLC validates that it denotes Q[T] - record cfp - before its use in IDENTIFY is judged - record idp)
+            if rest_ancestral:
+                rest = [v for v in nodes if v not in tv]
+                from y0.dsl import Distribution, Probability
+                qt2 = Probability(Distribution(children=tuple(sorted(tv, key=str)), parents=tuple(sorted(rest, key=str))))
+                recs.append({"id": rid + ":cfp", "k": "q", "s": t, "out": {"k": "expr", "e": ser_expr(qt2), "str": str(qt2)}})
+                _, out = outcome(lambda: identify_district_variables(input_variables=cv, input_district=tv,
+                                                                     district_probability=qt2, graph=graph, topo=order))
+                recs.append({"id": rid + ":idp", "k": "q", "s": c, "out": out})
             # (3) Lemma 3 on the ancestral set of C within T
             anc = frozenset(graph.subgraph(tv).ancestors_inclusive(cv))
             if anc != tv:
